@@ -254,7 +254,7 @@ func cliReplay(e *env) error {
 	work := make(chan int, 64)
 	var wg sync.WaitGroup
 	runs := 0
-	for w := 0; w < 12; w++ {
+	for w := 0; w < nWorkers(); w++ {
 		wg.Add(1)
 		go func(w int) {
 			defer wg.Done()
@@ -362,6 +362,10 @@ func runCliCase(c cliCase, dir string, useBin bool, report func(string, string, 
 			runs++
 			if res.Panicked != nil {
 				report("cli-panic", fmt.Sprintf("%v panics: %v", args, res.Panicked), c, map[string]interface{}{"book": book.text, "log": lg.text})
+				if c.Err.Kind != "none" {
+					// a crash is also not the error the specification predicts (no message, no line number)
+					report("cli-"+c.Err.Kind+"-reported-as-panic", fmt.Sprintf("%v panics (%v) where the specification predicts the %s error", args, res.Panicked, c.Err.Kind), c, map[string]interface{}{"book": book.text, "log": lg.text})
+				}
 				continue
 			}
 			if res.TimedOut {
@@ -398,6 +402,9 @@ func runCliCase(c cliCase, dir string, useBin bool, report func(string, string, 
 				kind, line := classifyStderr(r.Exit, r.Stderr)
 				if kind == "panic" {
 					report("cli-panic", fmt.Sprintf("binary %v crashes: %s", args, firstLine(r.Stderr)), c, map[string]interface{}{})
+					if c.Err.Kind != "none" {
+						report("cli-"+c.Err.Kind+"-reported-as-panic", fmt.Sprintf("binary %v crashes where the specification predicts the %s error", args, c.Err.Kind), c, map[string]interface{}{})
+					}
 				} else {
 					check("binary", kind, line, fmt.Sprintf("exit=%d stderr=%q", r.Exit, firstLine(r.Stderr)))
 				}
